@@ -392,6 +392,35 @@ def solve_all(queries, timeout_s=10.0, workers=8, order=None, race=False, mem_mb
         return out
 
 
+def replayable_models(queries, results, timeout_s=10.0, workers=8, order=None, denom=1 << 20):
+    """For sat results of Real-valued (math mode) queries: ask again with every declared Real constant among the query's
+    `values` restricted to multiples of 1/denom, so that the model is exactly representable as an f64 and a concrete replay
+    (SQLite, the real code) sees the same comparisons the solver saw (a model value of 1 - 1e-30 becomes 1.0 as a float and
+    flips `x < 1`). The verdict is untouched: only the model of an already satisfiable query is replaced when the restricted
+    query is satisfiable too; otherwise the original model is kept."""
+    byid = {q["id"]: q for q in queries}
+    again = []
+    for r in results:
+        if r["status"] != "sat" or r["id"] not in byid:
+            continue
+        q = byid[r["id"]]
+        reals = [n for n in re.findall(r"\(declare-const (\S+) Real\)", q["script"]) if n in set(q.get("values") or [])]
+        if not reals:
+            continue
+        extra = "\n".join("(assert (= (* %d.0 %s) (to_real (to_int (* %d.0 %s)))))" % (denom, n, denom, n) for n in reals)
+        again.append(dict(q, id=q["id"] + "#dyadic", script=q["script"] + "\n" + extra))
+    if not again:
+        return results
+    res2 = {r["id"][:-7]: r for r in solve_all(again, timeout_s, workers=workers, order=order)}
+    out = []
+    for r in results:
+        r2 = res2.get(r["id"])
+        if r2 is not None and r2["status"] == "sat":
+            r = dict(r, model=r2["model"], dyadic_model=True)
+        out.append(r)
+    return out
+
+
 def summarize(results):
     s = dict(total=len(results), sat=0, unsat=0, unknown=0, error=0, solver_time_s=0.0, by_solver={})
     for r in results:
